@@ -67,7 +67,40 @@ fn parse_display(s: &str) -> Option<(u64, u64, u64)> {
     Some((w, n, d))
 }
 
+/// approximating an already approximated number again (same or other limits) must keep the value
+fn check_repeated(c: &Case) -> Verdict {
+    let (v, acc, max_den, max_whole) = (c.v(), c.acc(), c.max_den, c.max_whole);
+    if !(v > 0.0) || !v.is_finite() {
+        return Ok(());
+    }
+    let mut n = Number::Regular(v);
+    let tol = 16.0 * f64::EPSILON * v.max(1.0);
+    for (i, (a, d, w)) in [(acc, max_den, max_whole), (acc, max_den, max_whole), (0.05f32, 4u8, u32::MAX), (1.0f32, 16u8, u32::MAX)].into_iter().enumerate() {
+        let before = n;
+        let r = match guard(|| {
+            let mut m = n;
+            let r = m.try_approx(a, d, w);
+            (m, r)
+        }) {
+            Ok(x) => x,
+            Err(p) => vbail!("c12.panic", "try_approx panicked: {p}"),
+        };
+        n = r.0;
+        vensure!(
+            (n.value() - v).abs() <= tol,
+            "c12.repeated-approximation-misstates",
+            "step {i}: try_approx({a}, {d}, {w}) on {before:?} (original input {v:e}) gives {n:?} with value {:e}",
+            n.value()
+        );
+        if !r.1 {
+            vensure!(format!("{n:?}") == format!("{before:?}"), "c12.declined-but-changed", "try_approx returned false but changed {before:?} into {n:?}");
+        }
+    }
+    Ok(())
+}
+
 pub fn oracle(c: &Case, st: &mut Stats) -> Verdict {
+    check_repeated(c)?;
     let (v, acc, max_den, max_whole) = (c.v(), c.acc(), c.max_den, c.max_whole);
     // documented preconditions of new_approx (it panics otherwise): 0 <= accuracy <= 1, max_den <= 64
     assert!((0.0..=1.0).contains(&acc) && max_den <= 64);
